@@ -4,6 +4,7 @@
 package c16
 
 import (
+	"bytes"
 	"encoding/hex"
 	"fmt"
 	"math"
@@ -155,21 +156,27 @@ func (e *env) genTyped() (m cs.ConsensusMessage, signed bool, kind string) {
 			v.Type = []byte{types.VoteTypePrevote, types.VoteTypePrecommit}[rng.Intn(2)]
 		}
 		att.PV.SignVote(e.n.Cfg.ChainID, v)
+		sigIntact := true
 		switch rng.Intn(5) {
 		case 0:
 			v.Signature = nil
-			valid = false
+			sigIntact = false
 		case 1:
 			s := v.Signature.(crypto.SignatureEd25519)
 			s[rng.Intn(64)] ^= 1
 			v.Signature = s
-			valid = false
+			sigIntact = false
 		}
 		if rng.Intn(25) == 0 {
 			return &cs.VoteMessage{Vote: nil}, false, "vote-nil"
 		}
 		// a correctly signed vote of the attacker's own key may change vote tallies and thereby the step
-		ok := valid && v.ValidatorIndex == e.attacker && v.ValidatorSize == int(V) && (v.Type == types.VoteTypePrevote || v.Type == types.VoteTypePrecommit) && v.Signature != nil
+		// (decided on the vote as it is, not on which mutation was drawn: the fields are altered BEFORE signing, and a mutation may
+		// draw the value the field already had — such a vote is a perfectly valid vote of the attacker's validator, also for
+		// another round or height)
+		_ = valid
+		ok := sigIntact && v.ValidatorIndex == e.attacker && v.ValidatorSize == int(V) && bytes.Equal(v.ValidatorAddress, att.PV.GetAddress()) &&
+			(v.Type == types.VoteTypePrevote || v.Type == types.VoteTypePrecommit) && v.Signature != nil
 		return &cs.VoteMessage{Vote: v}, ok, "vote"
 	case 2, 3: // proposal
 		p := &types.Proposal{Type: []byte{types.ProposalTypeNormal, types.ProposalTypeNormal, types.ProposalTypeRecover, 7}[rng.Intn(4)], Height: height(), Round: R,
@@ -486,4 +493,14 @@ func (P) Generate(g *hx.Gen) {
 		}
 		g.Case(fmt.Sprintf("fuzz %s phase=%d", kind, phase), ops, r.forwarded > 0)
 	}
+}
+
+// Debug runs one fuzz window and returns the recorded state changes and deaths (for the debug main).
+func Debug(seed int64, phase, count int, kind string) []string {
+	r := run(params{seed: seed, phase: phase, count: count, kind: kind})
+	out := append([]string{}, r.stateChanged...)
+	if r.dead != "" {
+		out = append(out, "dead: "+r.dead+" msg="+r.deadMsg)
+	}
+	return out
 }
